@@ -185,6 +185,19 @@ func isMutexMethod(fn *ssa.Function, name string) bool {
 	return s == "(*sync.Mutex)."+name || s == "(*sync.RWMutex)."+name
 }
 
+// screenLockArg: the mutex operated on is THE screen lock (the embedded Mutex field, or a mutex reached otherwise), not
+// another mutex field of the screen such as one that only serialises the lifecycle calls.
+func screenLockArg(cc *ssa.CallCommon) bool {
+	if len(cc.Args) == 0 {
+		return true
+	}
+	if fa, ok := cc.Args[0].(*ssa.FieldAddr); ok {
+		st := under(fa.X.Type().(*types.Pointer).Elem()).(*types.Struct)
+		return st.Field(fa.Field).Name() == "Mutex"
+	}
+	return true
+}
+
 // recvRoot: does value v denote (a pointer derived from) the method's receiver object of the analysed type?
 func (d *discAnalysis) isRecv(fn *ssa.Function, v ssa.Value) bool {
 	if len(fn.Params) > 0 && v == fn.Params[0] && fn.Signature.Recv() != nil {
@@ -353,9 +366,9 @@ func (d *discAnalysis) analyse(fn *ssa.Function, in heldSet) heldSet {
 					// a deferred close runs at function exit; the lock state there is not tracked: count as not serialised
 					d.chanSite(d.closeSites, fmt.Sprintf("%s.%s/close[%s]", d.lc.Type, name, chanName(x.Common().Args[0])), fn, false, x.Pos(), chanName(x.Common().Args[0]))
 				}
-				if isMutexMethod(callee, "Unlock") {
+				if isMutexMethod(callee, "Unlock") && screenLockArg(x.Common()) {
 					cur = cur.deferUnlock()
-				} else if isMutexMethod(callee, "Lock") {
+				} else if isMutexMethod(callee, "Lock") && screenLockArg(x.Common()) {
 					defers = append(defers, "lock")
 				} else if callee != nil && d.sameScreenMethod(callee) {
 					defers = append(defers, "call:"+callee.String())
@@ -414,11 +427,11 @@ func (d *discAnalysis) analyse(fn *ssa.Function, in heldSet) heldSet {
 					d.waitSites[k] = (!seen || ok) && !cur.mayHeld()
 				}
 				switch {
-				case isMutexMethod(callee, "Lock"):
+				case isMutexMethod(callee, "Lock") && screenLockArg(cc):
 					d.site(fmt.Sprintf("%s.%s/lock-not-held#%s", d.lc.Type, name, ord("call", ins)), !cur.mayHeld(),
 						name+" locks the screen mutex; it must not already be held here (self-deadlock)", x.Pos())
 					cur = cur.lock()
-				case isMutexMethod(callee, "Unlock"):
+				case isMutexMethod(callee, "Unlock") && screenLockArg(cc):
 					d.site(fmt.Sprintf("%s.%s/unlock-held#%s", d.lc.Type, name, ord("call", ins)), !cur.mayNotHeld(),
 						name+" unlocks the screen mutex; it must be held here", x.Pos())
 					cur = cur.unlock()
